@@ -158,10 +158,12 @@ class DirInit(Unit):
         def inv(ex_, fr, i, vals):
             return [("sm_path", val(vals["sm_path"]) == opt_join(nat, sdir.t, FIRST("sm")(L, i))),
                     ("ssc_path", val(vals["ssc_path"]) == opt_join(nat, sdir.t, FIRST("ssc")(L, i))),
-                    ("no-duplicate-unless-ignored", z3.Or(ign.t, z3.Not(DUPB()(L, i))))]
+                    ("no-duplicate-unless-ignored", z3.Or(ign.t, z3.Not(DUPB()(L, i))))] + \
+                   [(f"first-{k}-is-a-name", z3.Or(OSTR.is_none(FIRST(k)(L, i)), z3.Length(OSTR.val(FIRST(k)(L, i))) > 0)) for k in ("sm", "ssc")]
 
         def using(ex_, fr, i, vals):
-            return first_unfold(L, i) + [path_nonempty(nat, sdir.t, S_at(L, i))]
+            return first_unfold(L, i) + [path_nonempty(nat, sdir.t, S_at(L, i))] + \
+                   [path_nonempty(nat, sdir.t, OSTR.val(FIRST(k)(L, i))) for k in ("sm", "ssc")]
 
         def fld(name):
             def g(ex_, fr):
@@ -243,7 +245,8 @@ def simfile_open_contract(fs_expected):
         OB = TOpt(BOOL)
         s = OB.some(ex._z(ex.truthy(kw["strict"])) if not is_sym(kw["strict"]) else kw["strict"].t) if "strict" in kw else OB.lift(None)
         e = OSTR.some(term(kw["encoding"], STR)) if "encoding" in kw else OSTR.lift(None)
-        return SV(sim_open(term(path, STR), s, e), T_SIM)
+        pt = OSTR.val(path.t) if (is_sym(path) and path.ty.kind == "opt") else term(path, STR)
+        return SV(sim_open(pt, s, e), T_SIM)
     return c_
 
 
@@ -333,14 +336,15 @@ class FindPaths(Unit):
 
         def inner_inv(ex_, fr, j, vals):
             L2 = FS.listing(term(fr.locals["simfile_path"], STR))
-            return [("no-simfile-so-far", z3.Not(ANY()(L2, j)))]
+            y0 = fr.loop_entry[(self.LQ, 1)]["yielded"].t
+            return [("no-simfile-so-far", z3.Not(ANY()(L2, j))), ("nothing-yielded-yet", vals["yielded"].t == y0)]
 
         def inner_using(ex_, fr, j, vals):
             L2 = FS.listing(term(fr.locals["simfile_path"], STR))
             return any_unfold(L2, j)
 
         ex.loop_specs[(self.LQ, 0)] = LoopSpec([yield_slot(STR)], outer_inv, outer_using)
-        ex.loop_specs[(self.LQ, 1)] = LoopSpec([], inner_inv, inner_using)
+        ex.loop_specs[(self.LQ, 1)] = LoopSpec([yield_slot(STR)], inner_inv, inner_using)
         kind, r = ex.run_function(ex.closure_of(self.LQ, owner=d.SimfilePack), [obj])
         if kind == "raise":
             ex.prove("post:noraise", False, f"raised {r!r}")
@@ -390,6 +394,8 @@ def dirs_contract(fs, paths, ign_t):
 
         def at(ex_, i):
             p = S_at(paths, i)
+            for f_ in (SD_SM, SD_SSC):   # unit SimfileDirectory.__init__: a path is the join of a non-empty entry name
+                ex_.assume(z3.Or(OSTR.is_none(f_(p, ign_t)), z3.Length(OSTR.val(f_(p, ign_t))) > 0))
             o = HObj(d.SimfileDirectory, {"sm_path": SV(SD_SM(p, ign_t), OSTR), "ssc_path": SV(SD_SSC(p, ign_t), OSTR),
                                           "filesystem": fs, "simfile_dir": SV(p, STR)}, "simfile_dir")
             o.transient = True
@@ -467,6 +473,8 @@ class PackSimfiles(Unit):
                 cp = chosen_path(S_at(paths, i), ign.t)
                 return pair_sort().mk(sim_open(OSTR.val(cp), s, e), cp)
 
+            # per-element reasoning: the pack holds one arbitrary simfile directory
+            ex.callee_contracts[Q + "SimfilePack.simfile_dirs"] = lambda ex_, a, k: [dirs_contract(fs, paths, ign.t)(ex_, a, k).at(ex_, z3.IntVal(0))]
             pack = HObj(d.SimfilePack, {"filesystem": fs, "_ignore_duplicate": ign}, "pack")
             ex.callee_contracts[Q + "SimfilePack.__init__"] = lambda ex_, a, k: (a[0].fields.update(filesystem=k.get("filesystem"), _ignore_duplicate=ign) or None)
             fnc = ex.closure_of(LQ)
@@ -489,6 +497,8 @@ class PackSimfiles(Unit):
 
         if self.entry == "simfiles":
             ex.loop_specs[(LQ, 0)] = LoopSpec([yield_slot(T_SIM)], inv, using)
+        else:
+            ex.assume(nonempty(z3.IntVal(0)))     # domain: a pack entry holds a simfile (that is how the pack found it)
         kind, r = ex.run_function(fnc, args, kw)
         if kind == "raise":
             ex.prove("post:noraise", False, f"raised {r!r}")
@@ -500,8 +510,15 @@ class PackSimfiles(Unit):
         else:
             calls = ex.ghost.get("dir_open_kwargs", [])
             want = sorted(self.cfg)
-            ex.prove("post:every-simfile-opened-with-the-callers-options", z3.BoolVal(bool(calls) and all(c == want for c in calls)),
+            items = M.as_list(ex, r)
+            ok = bool(calls) and all(c == want for c in calls) and len(items) == 1
+            ex.prove("post:every-simfile-opened-with-the-callers-options", z3.BoolVal(ok),
                      f"openpack opened the directories with options {calls}; the caller passed {want}")
+            if ok:
+                sim, path = items[0]
+                exp = elem(z3.IntVal(0))
+                ex.prove("post:pair", z3.And(sim.t == pair_sort().sim(exp), term(path, OSTR) == pair_sort().path(exp)),
+                         "each result is (the opened simfile, the SSC path if present else the SM path)")
 
 
 UNITS = ([ExtMatch(), DirInit(True), DirInit(False)] + [DirOpen(c) for c in KW_CONFIGS] + [DirOpenFilesystemKw(), FindPaths(True), FindPaths(False), PrefixMonotone()] +
@@ -523,7 +540,10 @@ def witness_search(tier, seed):
         open(os.path.join(pack, "song1", "a.sm.old"), "w").write("x")
         open(os.path.join(pack, "song2", "nested", "deep.ssc"), "w").write("#VERSION:1;")
         open(os.path.join(pack, "empty", "readme.ssca"), "w").write("x")
-        sp = SimfilePack(pack)
+        try:
+            sp = SimfilePack(pack)
+        except Exception as e:
+            return dict(input="pack with song1 (a.SM), song2/nested/deep.ssc, empty/, loose.sm", detail=f"SimfilePack raised {type(e).__name__}: {e}")
         if [os.path.basename(p) for p in sp.simfile_dir_paths] != ["song1"]:
             return dict(input="pack with song1 (a.SM), song2/nested/deep.ssc, empty/, loose.sm", detail=f"pack lists {sp.simfile_dir_paths}")
         for what, f in (("openpack", lambda: list(simfile.openpack(pack, strict=False))), ("simfiles", lambda: list(sp.simfiles(strict=False))),
@@ -535,6 +555,20 @@ def witness_search(tier, seed):
         sd = SimfileDirectory(os.path.join(pack, "song1"))
         if not (sd.sm_path or "").endswith("a.SM") or sd.ssc_path is not None:
             return dict(input="song1", detail=f"sm_path={sd.sm_path} ssc_path={sd.ssc_path}")
+        both = os.path.join(d, "both")
+        os.makedirs(both)
+        open(os.path.join(both, "x.sm"), "w").write("#TITLE:sm;")
+        open(os.path.join(both, "x.SSC"), "w").write("#VERSION:0.83;#TITLE:ssc;")
+        sdb = SimfileDirectory(both)
+        if type(sdb.open()).__name__ != "SSCSimfile" or not sdb.simfile_path.endswith("x.SSC") or simfile.opendir(both)[1] != sdb.ssc_path:
+            return dict(input="directory with x.sm and x.SSC", detail="the SSC is not preferred")
+        mem = MemoryFS()
+        mem.makedirs("p/s")
+        mem.writetext("p/s/y.Sm", "#TITLE:m;")
+        mem.writetext("p/file.ssc", "#VERSION:1;")
+        mp = SimfilePack("p", filesystem=mem)
+        if list(mp.simfile_dir_paths) != ["p/s"] or [s_.title for s_ in mp.simfiles()] != ["m"]:
+            return dict(input="in-memory pack p/s/y.Sm + p/file.ssc", detail=f"lists {mp.simfile_dir_paths}")
         open(os.path.join(pack, "song1", "b.sm"), "w").write("#TITLE:two;")
         try:
             SimfileDirectory(os.path.join(pack, "song1"))
